@@ -300,7 +300,7 @@ func (ch *Chain) Step(proposer int, txs [][]byte, pick func(idx int, v *lib.Cons
 	}
 	for i := range ch.Nodes {
 		if e := ch.Deliver(i, p.QC, results[i], false); e != nil {
-			return nil, fmt.Errorf("node %d failed to commit height %d: %v", i, p.Block.BlockHeader.Height, e)
+			return nil, fmt.Errorf("node %d failed to commit height %d: %#v", i, p.Block.BlockHeader.Height, e)
 		}
 	}
 	rec := &BlockRecord{Height: p.Block.BlockHeader.Height, QC: p.QC, BlockHash: p.Block.BlockHeader.Hash, StateRoot: p.Block.BlockHeader.StateRoot, Block: p.Block, Signers: signers}
